@@ -404,6 +404,16 @@ func (r *Runner) symExec(job *Job, jr *JobResult) (paths []pathResult, err error
 			return nil
 		}()
 		if perr != nil {
+			if in.unwindAbort {
+				// keep the unwinding obligations of the aborted path: their models are replayed natively (hang watchdog)
+				var keep []*Obligation
+				for _, ob := range in.obligs {
+					if ob.Kind == "unwind" {
+						keep = append(keep, ob)
+					}
+				}
+				paths = append(paths, pathResult{decisions: in.decisions, obligs: keep, inputs: in.inputs, traces: in.traces})
+			}
 			return paths, perr
 		}
 		jr.Instrs += in.stats.instrs
